@@ -155,3 +155,10 @@ func TestDevSlow(t *testing.T) {
 	top(byVal)
 	top(byCtx)
 }
+
+func TestDevCounts(t *testing.T) {
+	if os.Getenv("C03_COUNTS") == "" {
+		t.Skip()
+	}
+	fmt.Println("readers", len(histReaders), "containers", len(histContainers()), "walkValues", len(walkValues), "walkContexts", len(walkContexts), "cyclics", len(cyclics), "evalGens", len(evalGens))
+}
